@@ -174,11 +174,13 @@ def compare_runs(spec, run0, run1, t0, fit, lin, vmap, cmap, fails, info, kind, 
         elif kind.endswith("-far"):
             # the known loss of accuracy of the dlite fit far from the origin stays below 0.05 (2.5e-2 at 1e4 tissue sizes);
             # anything larger is a different failure and gets its own key, so the known finding cannot hide it
-            # measured on the unchanged tree: about 3e-6 per tissue size of shift (6e-3 at 2000, 2.5e-2 at 1e4); three times that is the
-            # boundary of the known finding
+            # measured on the unchanged tree over 3473 far cases (thorough tier, seeds 0..5): 145 exceed the tolerance (4.2 %), typically by
+            # 3e-6 per tissue size of shift, at worst 3.2e-5 per tissue size (0.0235 at 730) and 0.058 in absolute terms (at 9462).  The first
+            # boundary (0.05 / 1e-5 per size, calibrated on the quick sample only) raised a false alarm in the thorough tier; the boundary of
+            # the known finding is now twice the worst observed value
             xf = spec.get("xf") or {}
             sr = math.hypot(*[float(v) for v in xf.get("shift_rel", (0.0, 0.0))])
-            gross = "-gross" if (worst[0] > 0.05 or worst[0] > 1e-5 * max(sr, 100.0)) else ""
+            gross = "-gross" if (worst[0] > 0.12 or worst[0] > 7e-5 * max(sr, 100.0)) else ""
             emit(f"coefficient-pairs:far-translation{gross}:{fit}", worst[2] + f"  [{kind}, {worst[1]}]")
         else:
             emit(f"coefficient-pairs:{kind}:{worst[1]}:{fit}", worst[2])
